@@ -13,7 +13,9 @@ from .. import apilevel as A, docx_builder as B, gen_html, gen_xml, oracle_html 
 API_MAP = "\n".join(["p.Q => blockquote > div.q", "p.C => pre:separator('\\n')", "p.D => div.q", "p.N => ul|ol > li",
                       "p.E => pre", "p.G => pre:separator(', ')",   # the same element three times: each merge is preceded by the separator of the element merged in, if it has one
                       "p.F => section:fresh:separator('|')",       # :fresh wins over :separator: such elements never merge
-                      "r.X => span.x", "r.Y => em > span.y", "r.Z => span.x", "r.W => em"])
+                      "r.X => span.x", "r.Y => em > span.y", "r.Z => span.x", "r.W => em",
+                      # the same class names in another order are another attribute value; :fresh and :separator on run-level mappings
+                      "r.U => span.k1.k2", "r.V => span.k2.k1", "r.T => span.tag:fresh", "r.K => kbd:separator('+')"])
 API_PSTYLES = [None, None, "Q", "Q", "C", "C", "D", "N", "F", "F", "E", "E", "G", "C", "E"]
 PRE_SEP = {"C": "\n", "E": "", "G": ", "}
 API_RSTYLES = [None, "X", "X", "Y", "Z", "W"]
@@ -40,7 +42,8 @@ def unmerged_siblings(forest):
     prev = None
     for n in forest:
         if "name" in n:
-            if prev is not None and n["name"] not in ("p", "section") and prev["name"] == n["name"] and prev["attrs"] == n["attrs"]:
+            if prev is not None and n["name"] not in ("p", "section") and prev["name"] == n["name"] and prev["attrs"] == n["attrs"] \
+                    and not (n["name"] == "span" and n["attrs"].get("class") == "tag"):        # (span.tag is mapped :fresh)
                 return n["name"], n["attrs"]
             r = unmerged_siblings(n["children"])
             if r:
@@ -56,10 +59,18 @@ def api_stream(ctx, dist):
     terms, metas = [], []
     styles = [X("w:style", {"w:type": "paragraph", "w:styleId": s}, [X("w:name", {"w:val": "Style " + s})]) for s in "QCDNFEG"] + \
              [X("w:style", {"w:type": "character", "w:styleId": s}, [X("w:name", {"w:val": "Char " + s})]) for s in "XYZW"]
+    styles = styles + [X("w:style", {"w:type": "character", "w:styleId": s_}, [X("w:name", {"w:val": "Char " + s_})]) for s_ in "UVTK"]
     for i in range(600 if ctx.thorough else 80):
         pkg = gen_xml.Package()
         pkg.styles = styles
         pkg.body = api_doc(rng)
+        dedicated = None
+        if i == 0:
+            # dedicated: runs that look alike but must stay apart (class names in another order; :fresh), and runs joined by their separator
+            run_ = lambda st_, t_: X("w:r", {}, [X("w:rPr", {}, [X("w:rStyle", {"w:val": st_})]), X("w:t", {}, [XT(t_)])])
+            pkg.body = [X("w:p", {}, [run_("U", "a"), run_("V", "b"), run_("U", "c"), run_("T", "d"), run_("T", "e"), run_("K", "Ctrl"), run_("K", "C")])]
+            dedicated = ('<p><span class="k1 k2">a</span><span class="k2 k1">b</span><span class="k1 k2">c</span><span class="tag">d</span>'
+                         '<span class="tag">e</span><kbd>Ctrl+C</kbd></p>')
         opts = {"style_map": API_MAP, "include_default_style_map": False, "include_embedded_style_map": True,
                 "ignore_empty_paragraphs": rng.random() < 0.7, "id_prefix": None, "conv": "data_uri"}
         data, parts = B.build(pkg)
@@ -69,6 +80,9 @@ def api_stream(ctx, dist):
         meta = {"api": "mammoth.convert_to_html", "package": gen_xml.pkg_json(pkg), "options": opts}
         if isinstance(html_, Exception):
             ctx.violation("oracle", "conversion raised %r" % html_, meta, True)
+        elif dedicated is not None and html_.value != dedicated:
+            ctx.violation("oracle", "runs mapped to look-alike elements were merged, or runs joined without their separator: got %s, expected %s" % (html_.value[:300], dedicated),
+                          dict(meta, observed=html_.value[:600]), True)
         else:
             # with ignore_empty_paragraphs=False every paragraph starts with an invisible force-write marker, which legitimately
             # keeps the last element of one paragraph and the first of the next apart: the adjacency rule is checked without it
